@@ -143,7 +143,16 @@ def run(ctx):
     for _ in range(ctx.n(120, 2500)):
         if ctx.out_of_time():
             break
-        one_individual(ctx, G.gen_individual(rng), rng)
+        x = G.gen_individual(rng)
+        one_individual(ctx, x, rng)
+        if x.parameter_values and rng.random() < 0.3:
+            # two different individuals that Python treats as equal (EVQEIndividual.__eq__ is hash equality, hash(-1.0) == hash(-2.0)):
+            # the same operations on both, one after the other - each result must be the result for ITS individual
+            k = 0 if rng.random() < 0.6 else rng.randrange(len(x.parameter_values))
+            for special in (-1.0, -2.0):
+                vals = tuple(special if i == k else float(v) for i, v in enumerate(x.parameter_values))
+                ctx.dist["hash-equal sibling"] += 1
+                one_individual(ctx, EVQEIndividual(x.n_qubits, x.layers, vals), rng)
     # the repaired finding F6: 1-qubit individual [Rot],[Id],[Rot]
     x = EVQEIndividual.random_individual(1, 3, True, 0)
     one_individual(ctx, x, rng)
